@@ -553,6 +553,29 @@ class Folder:
             return list(range(*a))
         raise Refuse("range")
 
+    def c_enumerate(self, a, kw):
+        it = a[0].data if isinstance(a[0], Arr) else a[0]
+        if isinstance(it, (list, tuple, str)):
+            start = a[1] if len(a) > 1 else kw.get("start", 0)
+            return [(i + start, x) for i, x in enumerate(it)]
+        raise Refuse("enumerate over non-literal")
+
+    def c_zip(self, a, kw):
+        its = [x.data if isinstance(x, Arr) else x for x in a]
+        if all(isinstance(x, (list, tuple, str)) for x in its):
+            return [tuple(t) for t in zip(*its)]
+        raise Refuse("zip over non-literal")
+
+    def c_reversed(self, a, kw):
+        if isinstance(a[0], (list, tuple, str)):
+            return list(reversed(a[0]))
+        raise Refuse("reversed")
+
+    def c_sorted(self, a, kw):
+        if isinstance(a[0], (list, tuple, frozenset)):
+            return sorted(a[0])
+        raise Refuse("sorted")
+
     def c_set(self, a, kw):
         if a[0] is None:
             raise Raised("TypeError")
